@@ -587,12 +587,12 @@ def impl_literal(r2: str) -> str:
     from pydoctor.epydoc.markup import restructuredtext
     text = "``f`` was deprecated in pkg 1.2.3; please use ``" + r2 + "`` instead."
     doc = ".. deprecated:: 1.2.3\n   " + text
-    if len(statemachine.string2lines(doc, tab_width=8, convert_whitespace=True)) != 2:
-        return "broken"
+    # the whole of pydoctor's reST path (since ce72216 it replaces U+001C-1E/0085/2028/2029 by a blank first); "broken" =
+    # docutils did not keep the text on the one line of the directive
     errs: List[Any] = []
     d = restructuredtext.parse_docstring(doc, errs).to_node()
     vm = [c for c in d.children if type(c).__name__ == "versionmodified"]
-    if len(vm) != 1 or len(d.children) != 1:
+    if len(vm) != 1 or len(d.children) != 1 or len(vm[0]) != 1 or "\n" in vm[0][0].astext():
         return "broken"
     para = vm[0][0]
     content = para[1] if len(para) > 1 else para
@@ -1408,12 +1408,18 @@ def gen_directive_module(rng, mk, doc_safe) -> str:
         lambda: f".. container:: {D('container-class')}\n\n   body\n\n.. class:: {D('option-class')}\n\nparagraph",
         lambda: f".. python::\n   :class: {D('option-class')}\n\n   print(1)\n\n.. unknown-{D('directive-name', True)}:: arg",
         lambda: f"Title {D('section-title')}\n==================================================\n\ntext\n\n.. contents:: {D('contents-title')}",
+        # a lone top-level section (and a lone sub-section): docutils promotes them to document title / subtitle, pydoctor
+        # writes them as h2/h3 headings with the moved ids (4065140). NOSUM: the title must be the first thing
+        lambda: f"NOSUM{D('promoted-title')} t\n==================================================\n\ntext `{D('reference-name')}`_",
+        lambda: (f"NOSUM{D('promoted-title')} t\n==================================================\n\n"
+                 f"{D('promoted-subtitle')} s\n--------------------------------------------------\n\ntext"),
         lambda: f".. list-table:: {D('table-title')}\n   :widths: 10 {D('table-widths', True)}\n\n   * - a\n     - {D('table-cell')}",
         lambda: f".. parsed-literal::\n   :class: {D('option-class')}\n\n   literal {D('parsed-literal')}\n\n.. epigraph::\n\n   quote\n\n   -- {D('attribution')}",
     ]
     out = [Q * 3 + "reST constructs" + Q * 3, '__docformat__ = "restructuredtext"', ""]
     for k, c in enumerate(rng.sample(constructs, 7)):
-        body = "Summary.\n\n" + c()
+        body = c()
+        body = body[5:] if body.startswith("NOSUM") else "Summary.\n\n" + body
         out.append(f"def d{k}():\n    " + Q * 3 + "\n" + "\n".join(("    " + l if l else l) for l in body.split("\n"))
                    + "\n    " + Q * 3 + "\n")
     return "\n".join(out)
@@ -1661,6 +1667,9 @@ def corpus_projects() -> List[Dict[str, Any]]:
     m = Marker(9330, "module-filename", "` **MKEM{i}** `b")
     proj("epytext", "", [m], {"tp/" + m.text + ".py": Q3 + "mod" + Q3 + "\nclass K:\n    " + Q3 + "doc" + Q3
                                + "\n    def __init__(self, a, b=1):\n        " + Q3 + "init" + Q3 + "\n"})
+    # 4065140: promoted title / subtitle written as headings
+    ms = [Marker(9340, "directive:promoted-title", "<xmk{i} onzz{i}=\"1\">t</xmk{i}>"), Marker(9341, "directive:promoted-subtitle", "\"><script>xmk{i}</script><pre class=\"")]
+    proj("restructuredtext", fn("titled", "", f"\n    {ms[0].text}\n    ==================================================\n\n    {ms[1].text}\n    --------------------------------------------------\n\n    text\n    "), ms)
     for pr in projs:
         ast.parse(pr["files"]["tp/__init__.py"])   # a corpus project that does not even parse would test nothing
     return projs
